@@ -1202,7 +1202,7 @@ func (c *cluster) unprotectedGenerateResizeJob(nodeAction nodeAction) (*resizeJo
 		return nil, fmt.Errorf("there is currently a resize job running")
 	}
 	c.currentJob = j
-	verifResizeEvent(c, "job_start", j.ID, j.action, nodeAction.node.ID)
+	verifResizeEvent(c, "job_start", j.ID, j.action, nodeAction.node.ID, j.IDs)
 
 	return j, nil
 }
@@ -1282,7 +1282,7 @@ func (c *cluster) unprotectedCompleteCurrentJob(state string) error {
 		return ErrResizeNotRunning
 	}
 	c.currentJob.setState(state)
-	verifResizeEvent(c, "job_end", c.currentJob.ID, state)
+	verifResizeEvent(c, "job_end", c.currentJob.ID, state, c.currentJob.isDone())
 	c.currentJob = nil
 	return nil
 }
